@@ -51,6 +51,16 @@ sockaddr_in loop(uint16_t port)
   return a;
 }
 
+// raw peers never leave TIME_WAIT sockets behind (hundreds of thousands of histories per run would exhaust the
+// port range): they close with an RST, and their listeners allow address reuse
+void closeRst(int fd)
+{
+  if(fd < 0) return;
+  linger lg{1, 0};
+  ::setsockopt(fd, SOL_SOCKET, SO_LINGER, &lg, sizeof(lg));
+  ::close(fd);
+}
+
 int unread(int fd)
 {
   int n = 0;
@@ -65,6 +75,9 @@ void waitReadable(int fd)
   (void)::poll(&p, 1, 2000);
 }
 
+int g_listener = -1;
+uint16_t g_listenerPort = 0;
+
 struct SockObj
 {
   std::string kind;
@@ -75,7 +88,9 @@ struct SockObj
   std::unique_ptr<AcceptorAsync> acc;
   int fd = -1;               // library descriptor (for readiness waits only)
   uint16_t port = 0;         // local port of udp / acceptor
-  int listener = -1, peer = -1; // raw peer of a tcp socket
+  int peer = -1;             // raw peer of a tcp socket
+  bool peerGone = false;        // the peer closed or reset the connection
+  long peerSent = 0, delivered = 0; // tcp: bytes the peer wrote / bytes handed to the receive handler
   int udpPeer = -1;
   std::vector<int> clients;  // raw clients of an acceptor
   std::vector<BufferPtr> held;
@@ -124,6 +139,7 @@ void onReceive(int i, BufferPtr b)
 {
   W->events.push_back("recv " + std::to_string(i));
   auto &s = W->socks[i];
+  s.delivered += static_cast<long>(b->size());
   if(s.sdr) { s.destroy(); return; } // against the rules: only on request
   if(s.holdRx) s.held.push_back(std::move(b));
 }
@@ -147,6 +163,12 @@ void runHistory(std::vector<std::string> const &ops)
 {
   World w;
   W = &w;
+  // connections a crashed predecessor may have left in the shared listener's backlog
+  for(pollfd p{g_listener, POLLIN, 0}; ::poll(&p, 1, 0) > 0 && (p.revents & POLLIN); p.revents = 0) {
+    int stale = ::accept(g_listener, nullptr, nullptr);
+    if(stale < 0) break;
+    closeRst(stale);
+  }
   for(auto const &line : ops) {
     auto x = har::words(line);
     if(x.empty()) continue;
@@ -165,7 +187,7 @@ void runHistory(std::vector<std::string> const &ops)
     else if(x[0] == "release") legal = sockPresent(N(1));
     else if(x[0] == "dsock") legal = sockAlive(N(1)) && w.socks[N(1)].held.empty();
     else if(x[0] == "psend") legal = sockPresent(N(1)) && w.socks[N(1)].kind != "acc" &&
-                                     (w.socks[N(1)].kind == "udp" || w.socks[N(1)].peer >= 0);
+                                     (w.socks[N(1)].kind == "udp" || !w.socks[N(1)].peerGone);
     else if(x[0] == "pclose") legal = sockPresent(N(1)) && w.socks[N(1)].kind == "tcp";
     else if(x[0] == "preset") legal = sockPresent(N(1)) && w.socks[N(1)].kind == "tcp" &&
                                       !(sockAlive(N(1)) && unread(w.socks[N(1)].fd) > 0);
@@ -189,16 +211,16 @@ void runHistory(std::vector<std::string> const &ops)
         s.onDisc = N(4); s.holdRx = N(5); s.sdr = N(6);
         auto &drv = *w.drivers.at(s.drv);
         if(s.kind == "tcp") {
-          s.listener = ::socket(AF_INET, SOCK_STREAM, 0);
-          auto port = bindAny(s.listener);
-          ::listen(s.listener, 4);
+          // one raw listener per harness process (created before the fork): the TIME_WAIT sockets that orderly
+          // peer closes leave behind then share one port instead of using up the port range
+          auto port = g_listenerPort;
           s.tcp = std::make_unique<SocketTcpAsync>(
               SocketTcpBuffered(SocketTcp(Address("127.0.0.1:" + std::to_string(port))), 2U, 64U), drv,
               [i](BufferPtr b) { onReceive(i, std::move(b)); },
               [i](Address, char const *) { int k = i; onDisconnect(k); });
           s.fd = s.tcp->impl->buff->sock->fd;
-          waitReadable(s.listener);
-          s.peer = ::accept(s.listener, nullptr, nullptr);
+          waitReadable(g_listener);
+          s.peer = ::accept(g_listener, nullptr, nullptr);
         } else if(s.kind == "udp") {
           s.udp = std::make_unique<SocketUdpAsync>(
               SocketUdpBuffered(SocketUdp(Address("127.0.0.1:0")), 2U, 64U), drv,
@@ -234,7 +256,12 @@ void runHistory(std::vector<std::string> const &ops)
         w.socks.at(N(1)).destroy();
       } else if(x[0] == "psend") {
         auto &s = w.socks.at(N(1));
-        if(s.kind == "tcp") { (void)::send(s.peer, "ping", 4, MSG_NOSIGNAL); }
+        if(s.kind == "tcp") {
+          if(::send(s.peer, "ping", 4, MSG_NOSIGNAL) == 4) s.peerSent += 4;
+          // everything the peer wrote so far must have arrived before the next op (the stream coalesces
+          // unread chunks; a chunk still in flight would make the next receive nondeterministic)
+          for(int spin = 0; s.alive() && unread(s.fd) < s.peerSent - s.delivered && spin < 2000; ++spin) ::usleep(1000);
+        }
         else {
           auto a = loop(s.port);
           (void)::sendto(s.udpPeer, "ping", 4, 0, reinterpret_cast<sockaddr *>(&a), sizeof(a));
@@ -242,13 +269,10 @@ void runHistory(std::vector<std::string> const &ops)
         waitReadable(s.fd);
       } else if(x[0] == "pclose" || x[0] == "preset") {
         auto &s = w.socks.at(N(1));
-        if(s.peer >= 0) {
-          if(x[0] == "preset") {
-            linger lg{1, 0};
-            ::setsockopt(s.peer, SOL_SOCKET, SO_LINGER, &lg, sizeof(lg));
-          }
-          ::close(s.peer);
-          s.peer = -1;
+        if(s.peer >= 0 && !s.peerGone) {
+          if(x[0] == "preset") { closeRst(s.peer); s.peer = -1; }
+          else ::shutdown(s.peer, SHUT_WR); // orderly close: FIN
+          s.peerGone = true;
           waitReadable(s.fd);
         }
       } else if(x[0] == "pconn") {
@@ -281,7 +305,14 @@ void runHistory(std::vector<std::string> const &ops)
     w.flush();
   }
   // end of history: whatever is left is destroyed - sockets first, then ToDos, drivers, accepted sockets, pool
+  // (the raw peers reset their connections first, so that no side lingers in TIME_WAIT)
   har::out("end");
+  for(auto &[i, s] : w.socks) {
+    for(int c : s.clients) closeRst(c);
+    s.clients.clear();
+    closeRst(s.peer);
+    s.peer = -1;
+  }
   for(auto &[i, s] : w.socks) { s.held.clear(); s.destroy(); }
   w.todos.clear();
   w.drivers.clear();
@@ -291,9 +322,6 @@ void runHistory(std::vector<std::string> const &ops)
   w.futs.clear();
   w.pool.reset();
   for(auto &[i, s] : w.socks) {
-    for(int c : s.clients) ::close(c);
-    if(s.peer >= 0) ::close(s.peer);
-    if(s.listener >= 0) ::close(s.listener);
     if(s.udpPeer >= 0) ::close(s.udpPeer);
   }
   har::obs("done");
@@ -303,6 +331,19 @@ void runHistory(std::vector<std::string> const &ops)
 
 int main()
 {
+  // (retry for a while: a previous run may have left the port range crowded with TIME_WAIT sockets)
+  for(int attempt = 0; attempt < 200; ++attempt) {
+    g_listener = ::socket(AF_INET, SOCK_STREAM, 0);
+    g_listenerPort = bindAny(g_listener);
+    if(g_listener >= 0 && g_listenerPort != 0 && ::listen(g_listener, 16) == 0) break;
+    if(g_listener >= 0) ::close(g_listener);
+    g_listener = -1;
+    ::usleep(500000);
+  }
+  if(g_listener < 0) {
+    std::fprintf(stderr, "lifecycle harness: cannot create its raw listener\n");
+    return 3;
+  }
   return har::run_cases([](std::string const &, std::vector<std::string> const &ops) {
     std::fflush(stdout);
     pid_t pid = fork();
